@@ -20,7 +20,7 @@ func init() {
 			"C17.2 a handler returns ok=true only on the edge equivalent to stamp ≥ now — operator and operand order normalised to ¬(int64(stamp) < time.Now().Unix()), whole seconds on both sides — with stamp the Atoi of the leading field of the username on the Atoi-success edge; every other return has ok=false; " +
 			"C17.3 the generators stamp time.Now().Add(duration).Unix() formatted in base 10 as (the leading field of) the username; " +
 			"C17.4 GenerateAuthKey hashes username:realm:password of its parameters as given (no normalisation of one side's inputs); " +
-			"C17.5 the derived password depends on both the username and the shared secret on every success return and on no state outside the parameters (no memo shared between secrets).",
+			"C17.5 the derived password depends on both the username and the shared secret on every success return and on no state outside the parameters, except a memo that is looked up under a key made of both.",
 		NotCovered: "forgery resistance of HMAC-SHA1/MD5; the clock; usernames containing further colons beyond what the derivation over the full username already binds.",
 		Run:        runC17,
 	})
